@@ -93,13 +93,16 @@ def is_sync(cond):
 
 
 def run(rep, tier):
-    rep.explanation = ("LOCK: a counter/typestate dataflow over the clang CFG of ProcessData, Worker::Run and Run, run once "
-                       "per truth value of SynchronizeThreads() (predicate splitting), tracks the reader mutex as an "
-                       "ownership lock and the two ring vectors as token semaphores (await own token / pass token to "
-                       "next); obligations are evaluated at the NextFrame call, at every access of the shared frame "
-                       "counters, at MergeWorker and at every normal exit / loop back edge. PATH: start-up ordering. "
-                       "WHO: call sites of NextFrame/MergeWorker/ProcessData and accesses to the protected shared "
-                       "members across the application units. SIB: Mutex/Thread wrappers.")
+    rep.explanation = ("LOCK: ProcessData and Worker::Run are folded (file-local helpers inlined) into the ordered list of their lock "
+                       "operations, reader calls, bookkeeping stores and returns, each with its path condition; the conditions "
+                       "depend on six boolean facts only (ordered mode, no frame left, first frame, worker 0, read succeeded, mapping), "
+                       "so the protocol is decided on the operation sequence of each of the 64 scenarios: reader mutex taken once "
+                       "and released, In[id] awaited before and In[(id+1)%n] passed after the read, nothing evaluated under a lock, "
+                       "the preloaded frame skipped only by worker 0.  A counter/typestate dataflow over the clang CFG (predicate "
+                       "splitting on SynchronizeThreads()) re-checks that every access of the shared counters and every NextFrame "
+                       "happens with the reader mutex held, and decides the start-up/join ordering in Run.  WHO: call sites of "
+                       "NextFrame/MergeWorker/ProcessData and accesses to the protected shared members across the application "
+                       "units.  SIB: Mutex/Thread wrappers.")
     rep.rule("R5.1", "every NextFrame call on the shared reader and every access of nframes_/is_first_frame_ in "
                      "ProcessData happens with traj_readerMutex_ held")
     rep.rule("R5.2", "at every normal exit of ProcessData the reader mutex is released; in ordered mode the worker awaited "
@@ -163,157 +166,16 @@ def run(rep, tier):
                       "%s in ProcessData (%s mode) with traj_readerMutex_ %s: two workers can be inside the reader / "
                       "frame bookkeeping at once" % (what, tag[sync], "not held" if held == 0 else "not provably held (state %s)" % held),
                       pd.loc(n), sample=True)
-    # R5.2 exits
-    for sync, fl in results.items():
-        rep.floor("R5.2", len(fl.exit_states), 3, "normal exits of ProcessData (%s)" % tag[sync])
-        for b, st in fl.exit_states:
-            line = fl.exit_line(b)
-            loc = "%s:%s" % (pd.file, line)
-            key = "%s|exit@%s" % (tag[sync], exit_fingerprint(pd, fl, b))
-            rd = st.get("reader", 0)
-            rep.check(rd == 0, "R5.2", key + "|reader", "reader mutex released at exit",
-                      "exit of ProcessData at line %s reachable with traj_readerMutex_ %s (%s mode): every other worker "
-                      "blocks forever" % (line, "held" if rd == 1 else "in state %s" % rd, tag[sync]), loc, sample=True)
-            acq = st.get("reader.acquired", 0)
-            rep.check(acq == 1, "R5.1", key + "|one-critical-section", "reader mutex acquired exactly once on the way to this exit",
-                      "the reader mutex is acquired %s times on a path to the exit at line %s: frame bookkeeping and the read are "
-                      "not one critical section (check-then-act race on nframes_/is_first_frame_)" % (acq, line), loc)
-            ring = {k: v for k, v in st.items() if k.startswith(("In.", "Out.")) and v != 0}
-            if sync:
-                want = {"In.self.await": 1, "In.next.pass": 1}
-                rep.check(ring == want, "R5.2", key + "|ring", "awaited In[self], passed In[next] exactly once",
-                          "exit of ProcessData at line %s (ordered mode) with ring state %s; required: In[self] awaited "
-                          "once and In[next] passed exactly once (lost or duplicated token => deadlock or out-of-order read)"
-                          % (line, ring or "{}"), loc, sample=True)
-            else:
-                rep.check(not ring, "R5.2", key + "|ring", "no ring mutex touched in unordered mode",
-                          "ring mutexes are used in unordered mode at exit line %s: %s (never initialised there)" % (line, ring), loc)
-            unk = [k for k in st if k.startswith("unknown-mutex")]
-            if unk:
-                rep.broken("R5.2", "unrecognised mutex object(s) in ProcessData: %s" % unk)
-    # token held while reading, passed only after the read; R5.5
-    fl = results[True]
-    for n in nf_calls:
-        if fl.reached(n):
-            st = fl.state_before(n)
-            ok = st.get("In.self.await", 0) == 1 and st.get("In.next.pass", 0) == 0
-            rep.check(ok, "R5.2", "ordered|read-between-await-and-pass",
-                      "NextFrame between In[self].Lock() and In[next].Unlock()",
-                      "in ordered mode NextFrame is called with ring state %s: the read is not between awaiting the own "
-                      "token and passing it on, so frames can be read out of order" % {k: v for k, v in st.items() if k.startswith("In.")},
-                      pd.loc(n), sample=True)
-    # frame bookkeeping also inside the token window
-    for n in shared:
-        if fl.reached(n):
-            st = fl.state_before(n)
-            ok = st.get("In.self.await", 0) == 1 and st.get("In.next.pass", 0) == 0
-            rep.check(ok, "R5.2", "ordered|bookkeeping-in-window|%s#%d" % (n["fname"], occurrence(pd, n, shared)),
-                      "frame bookkeeping inside the token window",
-                      "ordered mode: %s is accessed outside the In-token window (state %s)" % (n["fname"], {k: v for k, v in st.items() if k.startswith("In.")}),
-                      pd.loc(n))
-    for sync, fl in results.items():
-        for n in pd.walk():
-            if n.get("k") == "mcall" and n.get("callee") == MUTEX + "Lock" and isinstance(mutex_of(n, pd, idx_class), tuple) and fl.reached(n):
-                st = fl.state_before(n)
-                rep.check(st.get("reader", 0) == 0, "R5.5", "%s|ring-wait-without-reader" % tag[sync],
-                          "ring token awaited without holding the reader mutex",
-                          "ProcessData waits for a ring token while holding traj_readerMutex_ (lock-order inversion: deadlock)", pd.loc(n))
-        evals = [n for n in pd.walk() if n.get("k") == "mcall" and n.get("callee", "").endswith("Worker::EvalConfiguration")]
-        rep.floor("R5.5", len(evals), 2, "EvalConfiguration calls in ProcessData")
-        for n in evals:
-            if not fl.reached(n):
-                continue
-            st = fl.state_before(n)
-            ok = st.get("reader", 0) == 0 and (not sync or st.get("In.next.pass", 0) == 1)
-            rep.check(ok, "R5.5", "%s|eval-outside-locks#%d" % (tag[sync], occurrence(pd, n, evals)),
-                      "EvalConfiguration runs after the reader mutex is released and the token passed",
-                      "EvalConfiguration is called with lock state %s (%s mode): evaluation is serialised or the next "
-                      "worker is kept waiting" % ({k: v for k, v in st.items() if v != 0}, tag[sync]), pd.loc(n))
-    # ring index classes used
-    ring_ops = [(n, mutex_of(n, pd, idx_class)) for n in pd.walk()
-                if n.get("k") == "mcall" and n.get("callee") in (MUTEX + "Lock", MUTEX + "Unlock") and isinstance(mutex_of(n, pd, idx_class), tuple)]
-    rep.floor("R5.2", len(ring_ops), 4, "ring operations in ProcessData")
-    for n, m in ring_ops:
-        lock = n["callee"] == MUTEX + "Lock"
-        want = "self" if lock else "next"
-        rep.check(m == ("In", want), "R5.2", "ring-index|ProcessData|%s#%d" % ("await" if lock else "pass", occurrence(pd, n, [x for x, _ in ring_ops])),
-                  "%s on In[%s]" % ("Lock" if lock else "Unlock", want),
-                  "ProcessData %s threadsMutexes%s_[%s]; the protocol requires %s of In[%s]" % (
-                      "locks" if lock else "unlocks", m[0], m[1], "Lock" if lock else "Unlock",
-                      "id" if lock else "(id+1) % nthreads_"), pd.loc(n), sample=True)
-
-    # ================================================================ R5.9 preloaded first frame
-    rep.rule("R5.9", "the first selected frame is preloaded into worker 0's topology: only worker 0 may skip NextFrame while is_first_frame_ is set, and only "
-                     "worker 0 clears the flag (otherwise another worker clears it first and worker 0 overwrites the preloaded frame: one frame is lost)")
-    g_pd = CFG(pd)
-    clears = [n for n in pd.walk() if n.get("k") == "assign" and n["op"] == "=" and unwrap(n["lhs"]).get("field") == APP + "is_first_frame_"]
-    idcmp = [n for n in pd.walk() if n.get("k") == "binop" and n["op"] in ("==", "!=") and "getId()" in show(n) and show(n["rhs"]) in ("0",)]
-    ok = bool(clears)
-    for c_ in clears:
-        req = False
-        for ic in idcmp:
-            want = (ic["op"] == "==")
-            if g_pd.edge_required(ic["id"], want, c_["id"]) is True:
-                req = True
-        ok = ok and req and show(c_["rhs"]) == "false"
-    rep.check(ok, "R5.9", "first-frame-cleared-by-worker0", "is_first_frame_ = false only on the path where getId() == 0",
-              "ProcessData clears is_first_frame_ on a path not restricted to worker 0: a worker that enters first clears it, worker 0 then reads a new frame over the "
-              "preloaded first frame, which is never evaluated (unordered mode, --nt >= 2)", pd.loc(clears[0] if clears else None), sample=True)
-    skip_ok = False
-    for n in nf_calls:
-        gs = [a for a in pd.ancestors(n) if a.get("k") == "if"]
-        if gs:
-            c_ = re.sub(r"\s", "", show(gs[0]["cond"]))
-            skip_ok = c_ in ("(!is_first_frame_||(worker->getId()!=0))", "((worker->getId()!=0)||!is_first_frame_)")
-    rep.check(skip_ok, "R5.9", "first-frame-skip-guard", "NextFrame is skipped only for worker 0 while is_first_frame_ is set",
-              "the guard around NextFrame in ProcessData is not `!is_first_frame_ || id != 0`", pd.loc(nf_calls[0] if nf_calls else None))
+    # R5.2 / R5.5 / R5.9: protocol decided per scenario on the folded event sequence (helpers inlined)
+    check_processdata_protocol(rep, F, pd)
 
     # ================================================================ Worker::Run
     wr = F.one(APP + "Worker::Run")
     rep.analysed(wr)
-    idx_w = make_idx_class(wr)
-
-    def classify_wr(n):
-        if n.get("k") == "mcall" and n.get("callee") in (MUTEX + "Lock", MUTEX + "Unlock"):
-            m = mutex_of(n, wr, idx_w)
-            lock = n["callee"] == MUTEX + "Lock"
-            if isinstance(m, tuple):
-                return ("inc", "%s.%s.%s" % (m[0], m[1], "await" if lock else "pass"))
-            return ("inc", "unknown-mutex:%s" % (m,))
-        return None
     merges = [n for n in wr.walk() if n.get("k") == "mcall" and n.get("callee") == APP + "MergeWorker"]
     pcalls = [n for n in wr.walk() if n.get("k") == "mcall" and n.get("callee") == APP + "ProcessData"]
-    rep.floor("R5.3", len(merges), 1, "MergeWorker calls in Worker::Run")
     rep.floor("R5.3", len(pcalls), 1, "ProcessData calls in Worker::Run")
-    for sync in (True, False):
-        fl = CounterFlow(wr, classify_wr, assume=lambda c, s=sync: s if is_sync(c) else None, cut_back_edges=True).run()
-        for n in merges:
-            if sync:
-                if not fl.reached(n):
-                    rep.violation("R5.3", "ordered|merge-reached", "MergeWorker is not reached in ordered mode", wr.loc(n))
-                    continue
-                st = fl.state_before(n)
-                ok = st.get("Out.self.await", 0) == 1 and st.get("Out.next.pass", 0) == 0 and \
-                    not [k for k in st if k.startswith(("In.", "Out.")) and k not in ("Out.self.await", "Out.next.pass") and st[k] != 0]
-                rep.check(ok, "R5.3", "ordered|merge-bracket-before", "MergeWorker after Out[self].Lock(), before Out[next].Unlock()",
-                          "ordered mode: MergeWorker is called with ring state %s; it must run after awaiting Out[id] and "
-                          "before passing Out[(id+1)%%n] (otherwise merges overlap or are out of frame order)" % {k: v for k, v in st.items() if v != 0},
-                          wr.loc(n), sample=True)
-            else:
-                rep.check(not fl.reached(n), "R5.3", "unordered|no-merge-in-worker", "worker does not merge in unordered mode",
-                          "Worker::Run calls MergeWorker in unordered mode (concurrent, unprotected merge)", wr.loc(n))
-        ends = fl.back_states + fl.exit_states
-        for b, st in fl.back_states:
-            ring = {k: v for k, v in st.items() if k.startswith(("In.", "Out.")) and v != 0}
-            want = {"Out.self.await": 1, "Out.next.pass": 1} if sync else {}
-            rep.check(ring == want, "R5.3", "%s|iteration-end" % tag[sync], "per iteration: %s" % (want or "no ring operation"),
-                      "Worker::Run (%s mode) ends an iteration with ring state %s, required %s" % (tag[sync], ring or "{}", want or "{}"),
-                      "%s:%s" % (wr.file, fl.exit_line(b)), sample=True)
-        rep.floor("R5.3", len(fl.back_states), 1, "loop back edges in Worker::Run")
-        for b, st in fl.exit_states:
-            ring = {k: v for k, v in st.items() if k.startswith(("In.", "Out.")) and v != 0}
-            rep.check(not ring, "R5.3", "%s|exit" % tag[sync], "no ring operation pending at thread exit",
-                      "Worker::Run exits with ring state %s" % ring, "%s:%s" % (wr.file, fl.exit_line(b)))
+    check_workerrun_protocol(rep, F, wr)
     # loop condition is the ProcessData result
     g = CFG(wr)
     ok = any(g.cond_node(b) is not None and unwrap(g.cond_node(b))["id"] == pcalls[0]["id"] and g.term(b)["class"] == "WhileStmt" for b in g.blocks) if pcalls else False
@@ -404,6 +266,230 @@ def run(rep, tier):
     rep.assumptions += ["exception edges are not modelled (a throwing NextFrame leaves the mutex held; exception safety is not claimed)",
                         "SynchronizeThreads() is treated as one symbolic boolean per run (it is a pure virtual-dispatch constant getter in all applications)",
                         "deadlock freedom and schedule independence are argued from the verified token protocol, not model-checked"]
+
+
+# ---------------------------------------------------------------------------------------------- protocol by scenarios
+LOCK_RX = r"tools::Mutex::(Lock|Unlock)$|TrajectoryReader::NextFrame$|Worker::EvalConfiguration$|CsgApplication::MergeWorker$|CsgApplication::ProcessData$"
+
+
+def is_id(v):
+    return str(getattr(v, "func", "")) == "getId"
+
+
+def ring_of(obj):
+    """('In'|'Out', 'self'|'next'|other text) / 'reader' / None for the folded object of a Mutex call"""
+    s_ = str(obj)
+    if "traj_readerMutex_" in s_:
+        return "reader"
+    from sympy.core.function import AppliedUndef
+    ats = [a for a in sp.preorder_traversal(obj) if str(getattr(a, "func", "")) == "at" and len(a.args) == 2 and "threadsMutexes" in str(a.args[0])] \
+        if hasattr(obj, "args") else []
+    if len(ats) != 1:
+        return None
+    ring = "In" if "threadsMutexesIn_" in str(ats[0].args[0]) else "Out" if "threadsMutexesOut_" in str(ats[0].args[0]) else None
+    v = ats[0].args[1]
+    if is_id(v):
+        return (ring, "self")
+    if str(getattr(v, "func", "")) in ("mod", "imod") and len(v.args) == 2 and str(v.args[1]).endswith("nthreads_") and is_id(sp.expand(v.args[0] - 1)):
+        return (ring, "next")
+    return (ring, "other:%s" % v)
+
+
+def scenario_trace(fo, atoms, oracle, relevant):
+    """the relevant events that happen, in program order, under one assignment of the scenario atoms"""
+    from vsa.cases import executes
+    out = []
+    for e in fo.events:
+        if not relevant(e):
+            continue
+        x = executes(e, None, atoms, oracle, getattr(fo, "conds", {}))
+        if x is None:
+            from vsa.alg import guard_strs
+            raise AnalysisBroken("%s: cannot decide whether %s happens for %s (guards %s)" % (
+                fo.f.qname.split("::")[-1], e.get("callee") or e.get("target") or e["kind"], atoms, [g[-60:] for g in guard_strs(fo, e["guards"])]))
+        if x:
+            out.append(e)
+    return out
+
+
+def app_oracle(leaf):
+    s_ = str(leaf)
+    if isinstance(leaf, tuple):
+        if len(leaf) == 3 and leaf[0] in ("==", "!="):
+            a_, b_ = str(leaf[1]), str(leaf[2])
+            if {a_, b_} == {"nframes_", "0"}:
+                return ("NF0", leaf[0] == "==")
+            if (a_.startswith("getId(") and b_ == "0") or (b_.startswith("getId(") and a_ == "0"):
+                return ("ID0", leaf[0] == "==")
+        return None
+    if s_.startswith("SynchronizeThreads("):
+        return ("SY", True)
+    if s_.startswith("NextFrame("):
+        return ("NX", True)
+    if s_.startswith("ProcessData("):
+        return ("PD", True)
+    if s_ in ("is_first_frame_",):
+        return ("FF", True)
+    if s_ in ("do_mapping_",):
+        return ("DM", True)
+    return None
+
+
+def op_of(e):
+    """abstract operation of a recorded event"""
+    if e["kind"] == "call":
+        cal = e["callee"]
+        if cal.endswith("Mutex::Lock") or cal.endswith("Mutex::Unlock"):
+            m = ring_of(e["obj"])
+            lock = cal.endswith("::Lock")
+            if m == "reader":
+                return "reader.lock" if lock else "reader.unlock"
+            if isinstance(m, tuple):
+                return "%s.%s.%s" % (m[0], m[1], "await" if lock else "pass")
+            return "unknown-mutex:%s" % str(e["obj"])[:60]
+        return cal.split("::")[-1]
+    if e["kind"] == "store":
+        return "store:" + e["target"]
+    return e["kind"]
+
+
+def check_processdata_protocol(rep, F, pd):
+    import itertools
+    same = lambda q, g_: bool(g_.j.get("internal")) and g_.file == pd.file
+    fo = Fold(pd, inline=same, record_calls=LOCK_RX).run()
+    rel = lambda e: (e["kind"] == "call" and re.search(LOCK_RX, e["callee"])) or (e["kind"] == "store" and e["target"] in ("is_first_frame_", "nframes_")) or e["kind"] == "return"
+    names = ["SY", "NF0", "FF", "ID0", "NX", "DM"]
+    n_sc = 0
+    bad = {}
+
+    def fail(key, msg, e=None):
+        bad.setdefault(key, (msg, e))
+    for vals in itertools.product((True, False), repeat=len(names)):
+        A = dict(zip(names, vals))
+        tr = scenario_trace(fo, A, app_oracle, rel)
+        ops = [op_of(e) for e in tr]
+        n_sc += 1
+        tag = "ordered" if A["SY"] else "unordered"
+        sc = ", ".join("%s=%d" % (k_, v_) for k_, v_ in A.items())
+        unk = [o for o in ops if o.startswith("unknown-mutex")]
+        if unk:
+            raise AnalysisBroken("ProcessData: unrecognised mutex object(s) %s" % unk)
+        pos = lambda name: [i for i, o in enumerate(ops) if o == name]
+        rl, ru = pos("reader.lock"), pos("reader.unlock")
+        if len(rl) != 1 or len(ru) != 1 or rl[0] > ru[0]:
+            fail("%s|reader" % tag, "the reader mutex is locked %d and unlocked %d times on the path [%s] (operations: %s): it must be taken once and released before returning, "
+                 "otherwise every other worker blocks forever or the bookkeeping is not one critical section" % (len(rl), len(ru), sc, ops), tr[rl[0]] if rl else None)
+            continue
+        ring = [o for o in ops if o.startswith(("In.", "Out."))]
+        if A["SY"]:
+            if ring != ["In.self.await", "In.next.pass"]:
+                fail("ordered|ring", "ordered mode, path [%s]: ring operations are %s; required: In[id] awaited once, In[(id+1) %% nthreads_] passed exactly once "
+                     "(lost or duplicated token => deadlock or out-of-order read)" % (sc, ring))
+                continue
+            aw, ps = pos("In.self.await")[0], pos("In.next.pass")[0]
+            if not aw < rl[0]:
+                fail("ordered|ring-wait-without-reader", "ProcessData waits for its ring token while holding traj_readerMutex_ (lock-order inversion: deadlock) on path [%s]" % sc, tr[aw])
+        else:
+            if ring:
+                fail("unordered|ring", "ring mutexes are used in unordered mode (%s) on path [%s]; they are never initialised there" % (ring, sc))
+                continue
+            aw, ps = -1, len(ops)
+        for i_, o in enumerate(ops):
+            if o == "NextFrame":
+                if not (rl[0] < i_ < ru[0]):
+                    fail("%s|nextframe-under-reader" % tag, "NextFrame is called outside the reader critical section on path [%s]: %s" % (sc, ops), tr[i_])
+                if A["SY"] and not (aw < i_ < ps):
+                    fail("ordered|read-between-await-and-pass", "ordered mode: NextFrame is not between awaiting the own token and passing it on (path [%s], operations %s): frames can be read out of order" % (sc, ops), tr[i_])
+            if o.startswith("store:") and not (rl[0] < i_ < ru[0]):
+                fail("%s|bookkeeping-under-reader" % tag, "%s is written outside the reader critical section on path [%s]" % (o[6:], sc), tr[i_])
+            if o.startswith("store:") and A["SY"] and not (aw < i_ < ps):
+                fail("ordered|bookkeeping-in-window", "ordered mode: %s is written outside the In-token window on path [%s]" % (o[6:], sc), tr[i_])
+            if o == "EvalConfiguration":
+                if i_ < ru[0] or (A["SY"] and i_ < ps):
+                    fail("%s|eval-outside-locks" % tag, "EvalConfiguration runs before the reader mutex is released / the token is passed on path [%s] (%s): evaluation is serialised "
+                         "or the next worker is kept waiting" % (sc, ops), tr[i_])
+        # R5.9: the preloaded frame
+        nf = pos("NextFrame")
+        want_nf = (not A["NF0"]) and not (A["FF"] and A["ID0"])
+        if bool(nf) != want_nf or len(nf) > 1:
+            fail("first-frame-skip-guard", "on path [%s] NextFrame is called %d time(s); required %d: only worker 0 skips the read, and only while is_first_frame_ is set" % (sc, len(nf), int(want_nf)),
+                 tr[nf[0]] if nf else None)
+        clr = [e for e, o in zip(tr, ops) if o == "store:is_first_frame_"]
+        got_frame = (not A["NF0"]) and ((A["FF"] and A["ID0"]) or A["NX"])
+        if clr and not A["ID0"]:
+            fail("first-frame-cleared-by-worker0", "is_first_frame_ is cleared by a worker other than worker 0 (path [%s]): worker 0 then reads a new frame over the preloaded first frame, "
+                 "which is never evaluated (unordered mode, --nt >= 2)" % sc, clr[0])
+        if A["ID0"] and got_frame and A["FF"] and not clr:
+            fail("first-frame-cleared-by-worker0", "worker 0 does not clear is_first_frame_ after using the preloaded frame (path [%s]): it never reads another frame" % sc)
+        for e in clr:
+            if e["value"] is not sp.false:
+                fail("first-frame-cleared-by-worker0", "is_first_frame_ is set to %s" % e["value"], e)
+        # frame budget: decremented exactly once when a frame is taken, never when none is left
+        dec = [e for e, o in zip(tr, ops) if o == "store:nframes_"]
+        if A["NF0"] and dec:
+            fail("frame-budget", "nframes_ is changed although no frame is left (path [%s])" % sc, dec[0])
+        if not A["NF0"] and (len(dec) != 1 or sp.simplify(dec[0]["value"] - (S("nframes_") - 1)) != 0):
+            fail("frame-budget", "a frame is taken on path [%s] but nframes_ is updated %d time(s) (%s), required exactly nframes_ - 1" % (sc, len(dec), [str(e["value"]) for e in dec]), dec[0] if dec else None)
+        # result: true exactly when a frame was obtained
+        rets = [e for e in tr if e["kind"] == "return"]
+        if len(rets) != 1 or rets[0]["value"] not in (sp.true, sp.false) or (rets[0]["value"] is sp.true) != got_frame:
+            fail("result", "on path [%s] ProcessData returns %s; required %s (a frame %s obtained)" % (sc, [str(e["value"]) for e in rets], got_frame, "was" if got_frame else "was not"),
+                 rets[0] if rets else None)
+        ev_ = pos("EvalConfiguration")
+        if bool(ev_) != got_frame or len(ev_) > 1:
+            fail("eval-once", "on path [%s] EvalConfiguration is called %d time(s), required %d" % (sc, len(ev_), int(got_frame)))
+    rep.floor("R5.2", n_sc, 64, "ProcessData scenarios (SY, NF0, FF, ID0, NX, DM)")
+    rules = {"reader": "R5.2", "ring": "R5.2", "ring-wait-without-reader": "R5.5", "nextframe-under-reader": "R5.1", "read-between-await-and-pass": "R5.2",
+             "bookkeeping-under-reader": "R5.1", "bookkeeping-in-window": "R5.2", "eval-outside-locks": "R5.5", "first-frame-skip-guard": "R5.9",
+             "first-frame-cleared-by-worker0": "R5.9", "frame-budget": "R5.2", "result": "R5.2", "eval-once": "R5.2"}
+    keys = ["ordered|reader", "unordered|reader", "ordered|ring", "unordered|ring", "ordered|ring-wait-without-reader", "ordered|nextframe-under-reader", "unordered|nextframe-under-reader",
+            "ordered|read-between-await-and-pass", "ordered|bookkeeping-under-reader", "unordered|bookkeeping-under-reader", "ordered|bookkeeping-in-window",
+            "ordered|eval-outside-locks", "unordered|eval-outside-locks", "first-frame-skip-guard", "first-frame-cleared-by-worker0", "frame-budget", "result", "eval-once"]
+    for key in keys:
+        rid = rules[key.split("|")[-1]]
+        if key in bad:
+            msg, e = bad[key]
+            rep.violation(rid, "protocol|" + key, "ProcessData: " + msg, pd.loc(e["node"]) if e is not None else pd.loc())
+        else:
+            rep.holds(rid, "protocol|" + key, "holds on all %d scenarios" % n_sc, pd.loc(), sample=key in ("ordered|ring", "first-frame-skip-guard", "ordered|reader"))
+
+
+def check_workerrun_protocol(rep, F, wr):
+    import itertools
+    same = lambda q, g_: bool(g_.j.get("internal")) and g_.file == wr.file
+    fo = Fold(wr, inline=same, record_calls=LOCK_RX).run()
+    rel = lambda e: e["kind"] == "call" and re.search(LOCK_RX, e["callee"])
+    bad = {}
+    n_sc = 0
+    for sy in (True, False):
+        A = {"SY": sy, "PD": True}
+        tr = scenario_trace(fo, A, app_oracle, rel)
+        ops = [op_of(e) for e in tr]
+        n_sc += 1
+        unk = [o for o in ops if o.startswith("unknown-mutex")]
+        if unk:
+            raise AnalysisBroken("Worker::Run: unrecognised mutex object(s) %s" % unk)
+        body = ops[ops.index("ProcessData") + 1:] if "ProcessData" in ops else None
+        if body is None:
+            bad.setdefault("loop-on-processdata", ("Worker::Run does not call ProcessData", None))
+            continue
+        want = ["Out.self.await", "MergeWorker", "Out.next.pass"] if sy else []
+        if body != want:
+            key = "ordered|merge-bracket" if sy else "unordered|no-merge-in-worker"
+            msg = ("ordered mode: one iteration of Worker::Run performs %s; required %s - MergeWorker must run after awaiting Out[id] and before passing Out[(id+1) %% n] "
+                   "(otherwise merges overlap or are out of frame order)" % (body, want)) if sy else \
+                  "unordered mode: one iteration of Worker::Run performs %s; the worker must neither merge nor touch the ring there" % body
+            bad.setdefault(key, (msg, tr[-1] if tr else None))
+        if sy and body == want:
+            mw = [e for e in tr if op_of(e) == "MergeWorker"][0]
+            if str(mw["args"][0]) != "this":
+                bad.setdefault("ordered|merge-bracket", ("MergeWorker is called with %s, not this worker" % mw["args"][0], mw))
+    for key, rid in (("ordered|merge-bracket", "R5.3"), ("unordered|no-merge-in-worker", "R5.3"), ("loop-on-processdata", "R5.3")):
+        if key in bad:
+            msg, e = bad[key]
+            rep.violation(rid, "protocol|" + key, msg, wr.loc(e["node"]) if e is not None else wr.loc())
+        else:
+            rep.holds(rid, "protocol|" + key, "holds in both modes", wr.loc(), sample=(key == "ordered|merge-bracket"))
 
 
 MUTATORS = re.compile(r"::(Process|ProcessRange|Clear|clear|push_back|emplace_back|insert|erase|resize|assign|setZero|setConstant|Initialize|Add\\w*|set\\w*|operator(=|\\+=|-=|\\*=|/=|\\+\\+|--))$")
